@@ -395,7 +395,12 @@ def cli_strategy(draw: Any) -> dict:
     if draw(st.booleans()):
         keys = draw(st.lists(st.sampled_from(FILE_KEYS), min_size=1, max_size=5, unique=True))
         cfg = {"form": draw(st.sampled_from(["toml", "file", "python"])),
-               "values": {k: draw(KEYS[k]) for k in keys}}
+               "values": {k: draw(KEYS[k]) for k in keys},
+               # module / file names as users choose them (relative paths, names that begin
+               # with the letters of the python: and file: prefixes)
+               "name": draw(st.sampled_from(["vcli", "python_settings", "prod", "hypercorn_conf",
+                                             "tuning", "live", "file_conf", "etc/e", "yaml"])),
+               "relative": draw(st.booleans())}
     return {"opts": opts, "config": cfg, "app_first": draw(st.booleans())}
 
 
@@ -412,6 +417,9 @@ def _run_main(argv: List[str]) -> Any:
                 hm.main(argv)
             except SystemExit as e:
                 raise Inconclusive(f"argparse rejected {argv}: {e}")
+            except (ImportError, OSError, ValueError) as e:
+                # every argv built here names a configuration source that exists
+                raise Violation("config_source_not_loaded", f"argv={argv}: {e!r}")
     finally:
         hm.run = orig
     if len(captured) != 1:
@@ -437,12 +445,19 @@ def run_cli(case: dict) -> CaseInfo:
                         f.write(f"{k} = {_toml_val(v)}\n")
                 base = ["-c", path]
             elif cfg["form"] == "file":
-                path = os.path.join(tmp, "c.py")
+                rel = cfg.get("name", "c") + ".py"
+                path = os.path.join(tmp, rel)
+                os.makedirs(os.path.dirname(path), exist_ok=True)
                 with open(path, "w", encoding="utf-8") as f:
                     for k, v in file_values.items():
                         f.write(f"{k} = {v!r}\n")
-                base = ["--config", "file:" + path]
+                if cfg.get("relative"):
+                    os.chdir(tmp)
+                    base = ["--config", "file:" + rel]
+                else:
+                    base = ["--config", "file:" + path]
             else:
+                modname = cfg.get("name", "vcli").replace("/", "_") + "_" + modname
                 with open(os.path.join(tmp, modname + ".py"), "w", encoding="utf-8") as f:
                     for k, v in file_values.items():
                         f.write(f"{k} = {v!r}\n")
@@ -465,6 +480,7 @@ def run_cli(case: dict) -> CaseInfo:
             sys.modules.pop(modname, None)
             got = snapshot(_run_main(full))
         finally:
+            os.chdir(str(VERIF))
             if tmp in sys.path:
                 sys.path.remove(tmp)
             sys.modules.pop(modname, None)
